@@ -1045,3 +1045,89 @@ package pongo2
 //@   ensures {C02} @names-carry-no-opt-out !r0
 //@ func (*stringResolver).FilterApplied
 //@   ensures {C02} @literals-carry-no-opt-out !r0
+
+// ---- lexer: position invariant and the basic moves (C01, C06, C15, C16) ----
+//@ type lexer
+//@   invariant {C01,C06,C16} 0 <= self.start && self.start <= self.pos && self.pos <= len(self.input) && 0 <= self.width && self.width <= 4
+//@   invariant {C01,C16} self.errored ==> len(self.tokens) >= 1
+//@ func (*lexer).value
+//@   ensures {C06,C16} @the-pending-text r0 == substr(l.input, l.start, l.pos)
+//@ func (*lexer).length
+//@   ensures {C06,C16} @length-of-the-pending-text r0 == l.pos - l.start
+//@ func (*lexer).next
+//@   ensures {C06,C16} @end-of-input-consumes-nothing old(l.pos) >= len(l.input) ==> (r0 == lexerEOF && l.width == 0 && l.pos == old(l.pos) && l.col == old(l.col))
+//@   ensures {C06,C16} @one-rune-forward old(l.pos) < len(l.input) ==> (r0 != lexerEOF && 1 <= l.width && l.pos == old(l.pos) + l.width && l.col == wrap64(old(l.col) + l.width) && l.pos <= len(l.input))
+//@   ensures {C06,C16} @ascii-is-the-byte (old(l.pos) < len(l.input) && strat(l.input, old(l.pos)) < 128) ==> (r0 == strat(l.input, old(l.pos)) && l.width == 1)
+//@   ensures {C06,C16} @nothing-else-moves l.start == old(l.start) && l.line == old(l.line) && l.startline == old(l.startline) && l.startcol == old(l.startcol) && l.input == old(l.input) && len(l.tokens) == old(len(l.tokens))
+//@ func (*lexer).backup
+//@   requires {C01,C06} @undoes-the-last-step l.width <= l.pos - l.start
+//@   ensures {C06,C16} @one-step-back l.pos == old(l.pos) - l.width && l.col == wrap64(old(l.col) - l.width) && l.width == old(l.width) && l.start == old(l.start)
+//@ func (*lexer).ignore
+//@   ensures {C06,C16} @drops-the-pending-text l.start == l.pos && l.pos == old(l.pos) && l.startline == l.line && l.startcol == l.col
+//@ func (*lexer).emit
+//@   ensures {C06,C16} @one-token-for-the-pending-text len(l.tokens) == old(len(l.tokens)) + 1 && l.start == l.pos && l.pos == old(l.pos) && l.startline == l.line && l.startcol == l.col
+//@   ensures {C06} @html-tokens-carry-the-text-unchanged t == TokenHTML ==> l.tokens[old(len(l.tokens))].Val == old(substr(l.input, l.start, l.pos))
+//@   ensures {C16} @token-records-where-its-text-started l.tokens[old(len(l.tokens))].Line == old(l.startline) && l.tokens[old(len(l.tokens))].Col == old(l.startcol) && l.tokens[old(len(l.tokens))].Filename == l.name && l.tokens[old(len(l.tokens))].Typ == t
+//@   ensures {C06,C15,C16} @body-the-new-token-is-the-last-one l.tokens[old(len(l.tokens))] == tok
+//@   ensures {C15} @body-dash-only-on-three-character-symbols tok.TrimWhitespaces ==> (t == TokenSymbol && old(l.pos - l.start) == 3)
+//@ func (*lexer).peek
+//@   ensures {C06,C16} @looks-without-moving l.pos == old(l.pos) && l.col == old(l.col) && l.start == old(l.start) && l.line == old(l.line) && len(l.tokens) == old(len(l.tokens)) && l.input == old(l.input)
+//@   ensures {C06,C16} @end-of-input-is-the-sentinel (r0 == lexerEOF) == (l.pos >= len(l.input))
+//@   ensures {C06,C16} @ascii-is-the-byte (l.pos < len(l.input) && strat(l.input, l.pos) < 128) ==> r0 == strat(l.input, l.pos)
+// run: literal text between constructs is emitted as it stands; only delimiters and comments are dropped
+//@ func (*lexer).run
+//@   invariant 0 {C01,C06} @position-in-range 0 <= l.start && l.start <= l.pos && l.pos <= len(l.input)
+//@   invariant 1 {C01,C06} @inside-the-comment 0 <= l.start && l.start + 2 <= l.pos && l.pos <= len(l.input) && prefixat(l.input, l.start, "{#")
+//@   at (*lexer).emit requires {C06} @literal-text-becomes-an-html-token arg1 == TokenHTML && l.start < l.pos
+//@   at (*lexer).ignore#0 requires {C06} @drops-exactly-the-endverbatim-delimiter l.pos - l.start == 17
+//@   at (*lexer).ignore#1 requires {C06} @drops-exactly-the-verbatim-delimiter l.pos - l.start == 14 && prefixat(l.input, l.start, "{% verbatim %}")
+//@   at (*lexer).ignore#2 requires {C06} @drops-exactly-one-comment prefixat(l.input, l.start, "{#") && prefixat(l.input, l.pos - 2, "#}") && l.start + 4 <= l.pos
+//@   at (*lexer).tokenize requires {C06} @code-starts-at-an-opening-delimiter l.start == l.pos && !l.inVerbatim && (prefixat(l.input, l.pos, "{{") || prefixat(l.input, l.pos, "{%"))
+// the state functions are entered with nothing pending (run and the previous state emitted or ignored it);
+// they are called through function values, so this protocol is ASSUMED at their entry (not checked at tokenize)
+//@ func (*lexer).stateCode
+//@   requires @assume-nothing-pending l.start == l.pos
+//@   invariant 0 {C01} @nothing-pending-at-each-round l.start == l.pos
+// the parser wraps each text token in one node; dashes on the neighbouring delimiters decide the trimming
+//@ func (*Parser).parseDocElement
+//@   at store[nodeHTML.token] requires {C06,C15} @node-for-the-current-text-token v == t && t == p.tokens[p.idx] && t.Typ == TokenHTML
+//@   at store[nodeHTML.trimLeft] requires {C15} @left-trim-only-when-the-delimiter-before-carries-a-dash v == (p.idx >= 1 && p.tokens[p.idx - 1] != nil && p.tokens[p.idx - 1].Typ == TokenSymbol && p.tokens[p.idx - 1].TrimWhitespaces)
+//@   at store[nodeHTML.trimRight] requires {C15} @right-trim-only-when-the-delimiter-after-carries-a-dash v == (p.idx + 1 < len(p.tokens) && p.tokens[p.idx + 1] != nil && p.tokens[p.idx + 1].Typ == TokenSymbol && p.tokens[p.idx + 1].TrimWhitespaces)
+//@ freshonly {C04,C06,C15} nodeHTML
+//@ func (*nodeHTML).Execute
+//@   at TemplateWriter.WriteString requires {C06,C15} @text-as-lexed-unless-a-dash-asked-for-trimming (!n.trimLeft && !n.trimRight) ==> arg1 == n.token.Val
+//@   at strings.TrimLeft requires {C15} @left-side-whitespace-only n.trimLeft && arg0 == n.token.Val && arg1 == tokenSpaceChars
+//@   at strings.TrimRight requires {C15} @right-side-whitespace-only n.trimRight && arg1 == tokenSpaceChars && (n.trimLeft ==> arg0 == lastresult("strings.TrimLeft")) && (!n.trimLeft ==> arg0 == n.token.Val)
+//@   ensures {C06} @writes-exactly-once calls("TemplateWriter.WriteString") == 1
+// comments emit nothing and evaluate nothing; templatetag emits the delimiter its argument names
+//@ func (*tagCommentNode).Execute
+//@   ensures {C06} @emits-nothing r0 == nil
+//@ func tagCommentParser
+//@   at (*Parser).SkipUntilTag requires {C06} @content-is-skipped-not-parsed arg0 == doc
+//@ func tagTemplateTagParser
+//@   at store[tagTemplateTagNode.content] requires {C06} @the-named-delimiter has(templateTagMapping, argToken.Val) && v == templateTagMapping[argToken.Val]
+// whitespace control (C15): the dash is recognised on the four three-character delimiters only and removed from the token text
+//@ func (*lexer).emit
+//@   ensures {C15} @body-dash-delimiters-are-marked (t == TokenSymbol && old(l.pos - l.start) == 3 && (old(strat(l.input, l.start)) == 45 || old(strat(l.input, l.pos - 1)) == 45)) ==> tok.TrimWhitespaces
+//@   ensures {C15,C06} @body-other-tokens-are-not-marked (t != TokenSymbol) ==> !tok.TrimWhitespaces
+// TrimBlocks / LStripBlocks are applied by rewriting the text of the compiled tokens at the start of every
+// execution; a second execution strips again (same root cause as the C04/C05 findings)
+//@ func (*Template).newContextForExecution
+//@   at store[Token.Val]#1 requires {C15} @lstrip-leaves-the-compiled-text-alone false
+//@   at store[Token.Val]#2 requires {C15} @trim-leaves-the-compiled-text-alone false
+// diagnostics (C16)
+//@ writers {C16} F|lexer|line (*lexer).run
+//@ writers {C16} F|lexer|name
+//@ writers {C16} F|lexer|input
+//@ func (*lexer).next
+//@   ensures {C16} @column-moves-with-the-position wrap64(l.col - l.pos) == old(wrap64(l.col - l.pos))
+//@ func (*lexer).backup
+//@   ensures {C16} @column-moves-with-the-position wrap64(l.col - l.pos) == old(wrap64(l.col - l.pos))
+//@ func (*lexer).errorf
+//@   ensures {C16} @error-token-at-the-pending-position len(l.tokens) == old(len(l.tokens)) + 1 && l.errored && l.tokens[old(len(l.tokens))].Typ == TokenError && l.tokens[old(len(l.tokens))].Line == old(l.startline) && l.tokens[old(len(l.tokens))].Col == old(l.startcol) && l.tokens[old(len(l.tokens))].Filename == l.name
+//@ func lex
+//@   at (*lexer).run requires {C16} @starts-at-line-one-column-one arg0.line == 1 && arg0.col == 1 && arg0.startline == 1 && arg0.startcol == 1 && arg0.pos == 0 && arg0.start == 0 && arg0.name == name && arg0.input == input
+//@   ensures {C16} @lexer-error-names-the-template-and-the-position-of-the-error-token r1 != nil ==> (r1.Filename == name && r1.Sender == "lexer")
+//@ func (*Parser).Error
+//@   ensures {C16} @names-the-template-and-the-given-token r0 != nil && r0.Filename == p.name && r0.Template == p.template && r0.Sender == "parser" && (token != nil ==> (r0.Line == token.Line && r0.Column == token.Col && r0.Token == token))
+//@   ensures {C16} @defaults-to-the-current-token (token == nil && 0 <= p.idx && p.idx < len(p.tokens) && p.tokens[p.idx] != nil) ==> (r0.Line == p.tokens[p.idx].Line && r0.Column == p.tokens[p.idx].Col)
